@@ -70,6 +70,14 @@ class TwinNet(eqx.Module):
         return jnp.sum(prod, axis=1)
 
 
+class OUTri(JL.OU_FPENonStatioLoss2D):
+    """the built-in Ornstein-Uhlenbeck loss with a lower-triangular (non-symmetric) square root of the diffusion"""
+
+    def sigma_mat(self, t, x, eq_params):
+        s = eq_params["sigma"]
+        return jnp.array([[s[0], 0.0], [0.6 * s[1], s[1]]])
+
+
 def make_pair(D, r, m, time):
     c0 = np.array([[0.6 + 0.25 * dd - 0.15 * j + 0.05 * dd * j for j in range(r * m)] for dd in range(D)])
     e0 = np.array([[(dd + 2 * j + 1) % 3 for j in range(r * m)] for dd in range(D)], dtype=float)
@@ -109,6 +117,7 @@ def cases(tier, seed):
     out.append(dict(target="mass", D=2, time=False, r=2, m=2, B=Bd["B"]))
     out.append(dict(target="ns", D=2, time=False, r=2, m=2, B=Bd["B"]))
     out.append(dict(target="ou", D=3, time=True, r=1, m=1, B=2))
+    out.append(dict(target="ou_tri", D=3, time=True, r=1, m=1, B=2))  # correlated noise: lower-triangular square root
     for t_ in ("dirichlet", "neumann", "norm"):
         for time in (False, True):
             out.append(dict(target=t_, D=3 if time else 2, time=time, r=1, m=1, B=2))
@@ -144,6 +153,7 @@ def run_case(case):
     sp0, tw0 = sp.init_params(), tw.init_params()
     site = f"spinn_vs_pinn/{target}"
     quadratic = target in ("advection", "burgers", "fisher", "ns", "dirichlet", "neumann", "norm", "initial")
+    site = site.replace("ou_tri", "ou")
     Es = exponent_sets(D, r, m, e0, quadratic)
     zt = jnp.asarray(Z[:, :1]) if time else None
     zx = jnp.asarray(Z[:, 1:] if time else Z)
@@ -174,8 +184,9 @@ def run_case(case):
                "advection": lambda t, x, p: OPS._u_dot_nabla_times_u_rev(t, x, tw, p)}[target]
         f_fwd = lambda E: fwd(P_sp(E, eqp))
         f_rev = lambda E: jax.vmap(lambda z: rev(*split(z), P_tw(E, eqp)))(gp)
-    elif target in ("burgers", "fisher", "ou"):
-        dl = {"burgers": JL.BurgerEquation(Tmax=1.5), "fisher": JL.FisherKPP(Tmax=1.5), "ou": JL.OU_FPENonStatioLoss2D(Tmax=1.5)}[target]
+    elif target in ("burgers", "fisher", "ou", "ou_tri"):
+        dl = {"burgers": JL.BurgerEquation(Tmax=1.5), "fisher": JL.FisherKPP(Tmax=1.5), "ou": JL.OU_FPENonStatioLoss2D(Tmax=1.5),
+              "ou_tri": OUTri(Tmax=1.5)}[target]
         f_fwd = lambda E: dl.evaluate(zt, zx, sp, P_sp(E, eqp))
         f_rev = lambda E: jax.vmap(lambda z: dl.evaluate(z[:1], z[1:], tw, P_tw(E, eqp)))(gp)
     elif target in ("mass", "ns"):
@@ -266,8 +277,9 @@ def run_terms(case, sp, tw, sp0, tw0, Es, Z, grid_pts, eqp):
             if ds == 1 and not time:
                 pass
         if target == "norm":
-            S = np.array([[0.2 + 0.3 * i + 0.1 * a for a in range(ds)] for i in range(B)])
-            Sg = np.array([[S[idx[a], a] for a in range(ds)] for idx in itertools.product(range(B), repeat=ds)])
+            nS = 2 * B if time else B  # more normalisation samples than time stamps in the non-stationary case
+            S = np.array([[0.2 + 0.3 * i + 0.1 * a - 0.04 * i * i for a in range(ds)] for i in range(nS)])
+            Sg = np.array([[S[idx[a], a] for a in range(ds)] for idx in itertools.product(range(len(S)), repeat=ds)])
             kw_s = dict(norm_samples=jnp.asarray(S), norm_int_length=2.0)
             kw_t = dict(norm_samples=jnp.asarray(Sg), norm_int_length=2.0)
         if target == "initial":
